@@ -9,7 +9,7 @@ import (
 	"time"
 )
 
-//verif:entry property=C13 tier=both bounds="K publishes (K_quick=3,K_thorough=4), each with outcome in {ok, unencodable event (by type or by value: NaN), append rejected (with a plain error or one that also wraps context.Canceled), deadline expired, acknowledged by the store although the persistence deadline passed during the append}; error handler present or nil; persistence timeout set or not; observability set or not; a replay subscription live on the bus or not" cover="all-ok,some-failed" K_quick=3 K_thorough=4
+//verif:entry property=C13 tier=both bounds="K publishes (K_quick=3,K_thorough=4), each with outcome in {ok, unencodable event (by type or by value: NaN), append rejected (with a plain error or one that also wraps context.Canceled), deadline expired, acknowledged by the store although the persistence deadline passed during the append}; error handler present or nil; persistence timeout set or not (with it, the publisher's context optionally carrying a far deadline of its own); observability set or not (without it, optionally an application before-publish hook installed after the store); a replay subscription live on the bus or not" cover="all-ok,some-failed" K_quick=3 K_thorough=4
 func harnessC13Failures() {
 	K := vParam("K", 3)
 	mem := NewMemoryStore()
@@ -49,6 +49,9 @@ func harnessC13Failures() {
 	}
 	if withObs {
 		opts = append(opts, WithObservability(&c20Obs{}))
+	} else if vBool() {
+		// a context-aware before-publish hook of the application's own, installed after the store
+		opts = append(opts, WithBeforePublishContext(func(ctx context.Context, t reflect.Type, ev any) {}))
 	}
 	bus := New(opts...)
 	if handlerViaSetter {
@@ -91,6 +94,14 @@ func harnessC13Failures() {
 			fs.outcomes = append(fs.outcomes, outs[i])
 		}
 	}
+	// the publisher's own context may carry a (much later) deadline of its own
+	pubCtx := context.Background()
+	if withTimeout && vBool() {
+		fs.callerDeadline = time.Unix(4000000000, 0)
+		var stop context.CancelFunc
+		pubCtx, stop = context.WithDeadline(pubCtx, fs.callerDeadline)
+		defer stop()
+	}
 	for i := 0; i < K; i++ {
 		if outs[i] == 3 {
 			if byValue {
@@ -106,7 +117,7 @@ func harnessC13Failures() {
 			wantFail++
 			continue
 		}
-		Publish(bus, evF{N: i + 1, F: 1.5})
+		PublishContext(bus, pubCtx, evF{N: i + 1, F: 1.5})
 		if outs[i] == 0 || outs[i] == 4 {
 			// 4: acknowledged by the store (although late) - a success
 			okNs = append(okNs, i+1)
@@ -124,6 +135,10 @@ func harnessC13Failures() {
 	vAssert(fs.calls == K-nUnenc, "one-append-attempt-each")
 	for _, d := range fs.sawDeadline {
 		vAssert(d == withTimeout, "persistence-timeout-reaches-the-store")
+	}
+	for _, c := range fs.nearestIsCallers {
+		// with a persistence timeout the store works under that (tighter) deadline, not under the publisher's
+		vAssert(!c, "persistence-timeout-reaches-the-store")
 	}
 	// reported exactly once each
 	if withHandler {
